@@ -1171,26 +1171,29 @@ func run(c *core.Ctx) {
 	c.Set("histories_per_setting", len(hl))
 	c.Set("history_max_len", maxLen)
 	hp := &histPhase{a: a, refdir: refdir, byKey: map[string][]rec{}}
-	if c.Quick() {
-		hp.run(maxLen, dl, 0) // one enumeration; worker s runs under GOMAXPROCS {1,2,16}[s%3]
-	} else {
+	// One enumeration in which worker s runs under GOMAXPROCS {1,2,16}[s%3] (quick: the only one).
+	hp.run(maxLen, dl, 0)
+	wg.Wait()
+	endPhase("histories_and_fresh_processes")
+
+	// ---- phase 4 (thorough): pairs of deviations, the big grammars as far as the budget allows, and
+	// last (GOMAXPROCS is a vacuous dimension for a pipeline without goroutines) the complete history
+	// enumeration once more under each GOMAXPROCS value.
+	if !c.Quick() {
+		if ctl {
+			a.pairsPhase(refdir, refRecs, small, dl)
+			endPhase("pairs")
+			for _, gi := range big {
+				a.orderPhase(refdir, refRecs, []int{gi}, dl, covered)
+				endPhase("map_order_" + gs[gi].Name)
+			}
+		}
 		for _, gmp := range []int{1, 2, 16} {
 			hp.run(maxLen, dl, gmp)
 		}
+		endPhase("histories_per_gomaxprocs")
 	}
-	wg.Wait()
 	hp.report()
-	endPhase("histories_and_fresh_processes")
-
-	// ---- phase 4 (thorough): pairs of deviations, then the big grammars as far as the budget allows
-	if ctl && !c.Quick() {
-		a.pairsPhase(refdir, refRecs, small, dl)
-		endPhase("pairs")
-		for _, gi := range big {
-			a.orderPhase(refdir, refRecs, []int{gi}, dl, covered)
-			endPhase("map_order_" + gs[gi].Name)
-		}
-	}
 	if ctl {
 		c.Set("map_order_exploration", covered)
 		if c.Quick() {
